@@ -106,7 +106,10 @@ func formatOf(version string) string {
 
 var edgeVersions = []string{"", "0.13.2", "0.13.3", "0.13.4", "0.13.10", "0.14", "0.14.0.7", "00.013.04", "0.13",
 	"0.12.3", "0.11.1", "0.11.0", "0.10.9", "1.0.0", "0.13.x", "0.13.2-rc1", "0..1", ".", "0.13.18446744073709551616",
-	"0.13.18446744073709551615", "+0.13.2", "0.13.2.", "0.14.1", "0.13.2.garbage", "0.13. 2"}
+	"0.13.18446744073709551615", "+0.13.2", "0.13.2.", "0.14.1", "0.13.2.garbage", "0.13. 2",
+	// 32 bytes and more: felt.SetBytes wraps modulo the prime (the model must reduce too)
+	wrapModP("0.14.0", "0.14.0."), wrapModP("0.14.0", "0.14.1."), wrapModP("0.13.2", "0.13.2."), wrapModP("0.13.4", "0.12.3."),
+	"0.14.0." + strings.Repeat("\xff", 25), "0.13.3." + strings.Repeat("z", 40)}
 
 func bigFelt(s string) *felt.Felt {
 	n, _ := new(big.Int).SetString(s, 0)
@@ -364,7 +367,7 @@ func runHashCorrespondence(f lib.Flags, res *lib.Result, drv *lib.Driver, r *lib
 			}
 			b, err := g.Next(spec)
 			if err != nil {
-				res.Note("generator: %v", err)
+				res.Fatalf("generator: %v", err)
 				return
 			}
 			format := formatOf(b.Block.ProtocolVersion)
@@ -471,7 +474,7 @@ func runHashCorrespondence(f lib.Flags, res *lib.Result, drv *lib.Driver, r *lib
 	}
 	outs, err := drv.AskAll(lines)
 	if err != nil {
-		res.Note("driver: %v", err)
+		res.Fatalf("driver: %v", err)
 		return
 	}
 	for i, c := range cases {
@@ -512,13 +515,7 @@ func runHashCorrespondence(f lib.Flags, res *lib.Result, drv *lib.Driver, r *lib
 				got = strings.Join(append(outp, ps[4]), " | ")
 			}
 		case "cc":
-			// the model returns the 256-bit number; juno reduces it mod P (felt.SetBytes)
-			n, ok := new(big.Int).SetString(model, 16)
-			if ok {
-				var fe felt.Felt
-				fe.SetBigInt(n)
-				got = feltHex(&fe)
-			}
+			// the driver answers with the reduced number, as felt.SetBytes makes it
 		}
 		res.Compared(1)
 		res.Case(c.kind+":"+c.line, c.kind != "cc" && c.kind != "dispatch")
